@@ -1295,9 +1295,6 @@ class Models:
                 inner = interp.read(st, v[1])
                 if isinstance(inner, tuple) and inner[0] == "agg" and inner[1] == "adt" and inner[2][0].endswith("KeyRef"):
                     return inner[3][0]
-                if isinstance(inner, tuple) and inner[0] in ("ref", "param") and v[1][0] in ("L", "T"):
-                    v = inner
-                    continue
             break
         return v
 
